@@ -3,64 +3,6 @@
 // (src/writer.rs) and the async copies (src/writer/async_tokio.rs), against ONE contract:
 //   out' == out ++ pre(event) ++ render(event),  pre = "\n" + indent only before markup when the flag is set
 // ---------------------------------------------------------------------------------------------
-//@extract events::BytesStart::Deref | src/events/mod.rs :: impl<'a> Deref for BytesStart<'a> | serves=C08,C09,C19
-impl<'a> Deref for BytesStart<'a> {
-    type Target = [u8];
-
-    fn deref(&self) -> (r: &[u8])
-        ensures r@ == self.buf@
-    {
-        proof { axiom_cow_bytes(&self.buf); }
-        &self.buf
-    }
-}
-//@end
-//@extract events::BytesEnd::Deref | src/events/mod.rs :: impl<'a> Deref for BytesEnd<'a> | serves=C08,C09,C19
-impl<'a> Deref for BytesEnd<'a> {
-    type Target = [u8];
-
-    fn deref(&self) -> (r: &[u8])
-        ensures r@ == self.name@
-    {
-        proof { axiom_cow_bytes(&self.name); }
-        &self.name
-    }
-}
-//@end
-//@extract events::BytesCData::Deref | src/events/mod.rs :: impl<'a> Deref for BytesCData<'a> | serves=C08,C09,C19
-impl<'a> Deref for BytesCData<'a> {
-    type Target = [u8];
-
-    fn deref(&self) -> (r: &[u8])
-        ensures r@ == self.content@
-    {
-        proof { axiom_cow_bytes(&self.content); }
-        &self.content
-    }
-}
-//@end
-//@extract events::BytesPI::Deref | src/events/mod.rs :: impl<'a> Deref for BytesPI<'a> | serves=C08,C09,C19
-impl<'a> Deref for BytesPI<'a> {
-    type Target = [u8];
-
-    fn deref(&self) -> (r: &[u8])
-        ensures r@ == self.content.buf@
-    {
-        &self.content
-    }
-}
-//@end
-//@extract events::BytesDecl::Deref | src/events/mod.rs :: impl<'a> Deref for BytesDecl<'a> | serves=C08,C09,C19
-impl<'a> Deref for BytesDecl<'a> {
-    type Target = [u8];
-
-    fn deref(&self) -> (r: &[u8])
-        ensures r@ == self.content.buf@
-    {
-        &self.content
-    }
-}
-//@end
 
 pub mod writer_ {
 use super::*;
@@ -91,7 +33,7 @@ use crate::encoding::UTF8_BOM;
 //@end
 
 impl Indentation {
-//@extract writer::Indentation::new | src/writer.rs :: impl Indentation :: fn new | serves=C19
+//@extract writer::Indentation::new | src/writer.rs :: impl Indentation :: fn new | serves=C09,C19
  pub fn new(indent_char: u8, indent_size: usize) -> (r: Self)
         ensures r.inv(), r.indent_char == indent_char, r.indent_size == indent_size, r.current_indent_len == 0, !r.should_line_break
  {
@@ -104,7 +46,7 @@ impl Indentation {
         }
     }
 //@end
-//@extract writer::Indentation::grow | src/writer.rs :: impl Indentation :: fn grow | serves=C19
+//@extract writer::Indentation::grow | src/writer.rs :: impl Indentation :: fn grow | serves=C09,C19
  pub fn grow(&mut self)
         requires old(self).inv(), old(self).current_indent_len + old(self).indent_size <= usize::MAX
         ensures final(self).inv(), final(self).current_indent_len == old(self).current_indent_len + old(self).indent_size,
@@ -114,7 +56,7 @@ impl Indentation {
         self.ensure(self.current_indent_len);
     }
 //@end
-//@extract writer::Indentation::shrink | src/writer.rs :: impl Indentation :: fn shrink | serves=C19
+//@extract writer::Indentation::shrink | src/writer.rs :: impl Indentation :: fn shrink | serves=C09,C19
  pub fn shrink(&mut self)
         requires old(self).inv()
         ensures final(self).inv(), final(self).indent_char == old(self).indent_char, final(self).indent_size == old(self).indent_size, final(self).should_line_break == old(self).should_line_break,
@@ -124,7 +66,7 @@ impl Indentation {
         self.current_indent_len = self.current_indent_len.saturating_sub(self.indent_size);
     }
 //@end
-//@extract writer::Indentation::current | src/writer.rs :: impl Indentation :: fn current | serves=C19
+//@extract writer::Indentation::current | src/writer.rs :: impl Indentation :: fn current | serves=C09,C19
  pub fn current(&self) -> (r: &[u8])
         requires self.inv()
         ensures r@.len() == self.current_indent_len, forall|i: int| 0 <= i < r@.len() ==> r@[i] == self.indent_char
@@ -132,7 +74,7 @@ impl Indentation {
         &self.indents[..self.current_indent_len]
     }
 //@end
-//@extract writer::Indentation::additional | src/writer.rs :: impl Indentation :: fn additional | serves=C19
+//@extract writer::Indentation::additional | src/writer.rs :: impl Indentation :: fn additional | serves=C09,C19
  pub fn additional(&mut self, additional_indent: usize) -> (r: &[u8])
         requires old(self).inv(), old(self).current_indent_len + additional_indent <= usize::MAX
         ensures r@.len() == old(self).current_indent_len + additional_indent, forall|i: int| 0 <= i < r@.len() ==> r@[i] == old(self).indent_char,
@@ -145,7 +87,7 @@ impl Indentation {
         &self.indents[..new_len]
     }
 //@end
-//@extract writer::Indentation::ensure | src/writer.rs :: impl Indentation :: fn ensure | serves=C19
+//@extract writer::Indentation::ensure | src/writer.rs :: impl Indentation :: fn ensure | serves=C09,C19
     fn ensure(&mut self, new_len: usize)
         requires forall|i: int| 0 <= i < old(self).indents@.len() ==> old(self).indents@[i] == old(self).indent_char
         ensures final(self).indents@.len() >= new_len, final(self).indents@.len() >= old(self).indents@.len(),
